@@ -8,10 +8,13 @@ ZW, GW : Lean control models of zlib.Writer / gzip.Writer (lazy header, sticky e
     flate Writer control model with replayed leaves vs the implementation, lock-step incl. header and trailer bytes
 G : Lean leaf-contract check `checkGen` (proved to imply Sound.gen and the C19 window discipline for the call) applied to
     recorded match-finder calls: buffer given, tokens appended; at EVERY acceleration level (Go and assembly finders)
+E : Lean leaf-contract check `checkEnc` (proved, via the frame theorem of the specification inflater, to imply the `enc`
+    clause of Writer.Sound / HSound for the call) applied to EVERY block the real block encoders emit (Huffman code
+    generation, dynamic header, token / byte packing in Go or assembly, bit buffer), at every acceleration level
 K : Lean checksum / gzip / zlib header and trailer definitions vs hash/crc32, hash/adler32 and fastgo's container bytes
 """
 KINDS = {
-    "C01": ["I", "W", "H", "G"],
+    "C01": ["I", "W", "H", "G", "E"],
     "C02": ["I", "R"],
     "C03": ["I", "R"],
     "C04": ["R"],
@@ -20,16 +23,16 @@ KINDS = {
     "C07": ["K"],
     "C08": ["K"],
     "C09": ["W"],
-    "C10": ["I", "W", "H", "ZW", "GW", "G"],
+    "C10": ["I", "W", "H", "ZW", "GW", "G", "E"],
     "C11": ["R"],
     "C12": ["W", "ZW", "GW"],
     "C13": ["R"],
     "C14": ["W", "ZW", "GW"],
     "C15": ["R"],
     "C16": ["W", "ZW", "GW"],
-    "C18": ["R", "W", "G"],
+    "C18": ["R", "W", "G", "E"],
     "C19": ["I", "W", "G"],
-    "C20": ["W", "H", "G"],
+    "C20": ["W", "H", "G", "E"],
 }
-COUNT = {"I": (300, 3000), "W": (600, 6000), "R": (400, 4000), "K": (600, 6000), "G": (600, 6000), "H": (400, 4000), "ZW": (300, 3000), "GW": (300, 3000)}
-PER_LEVEL = {"G"}
+COUNT = {"I": (300, 3000), "W": (600, 6000), "R": (400, 4000), "K": (600, 6000), "G": (600, 6000), "H": (400, 4000), "ZW": (300, 3000), "GW": (300, 3000), "E": (120, 1500)}
+PER_LEVEL = {"G", "E"}
